@@ -291,6 +291,19 @@ def run(check, repo: Repo) -> None:
     check.decide(set(ff_defs) == want, "C04-R2", "_return_kernel_contributions: every kernel is (stack spectrum) × (probe-derived factor)", str(ff_defs), mod.line(ker),
                  fail_detail=f"kernel products are {ff_defs}")
     fin = [n for n in walk_no_nested_defs(rec) if isinstance(n, ast.Assign) and dotted(n.targets[0]) == "self.corrected_stack"]
+    if not fin:
+        # storing the private field directly is equivalent as long as the public setter does nothing but validate and store: if it also resets derived state
+        # (a cached sum, …) the direct store leaves that state stale — results then depend on the call history of the object
+        priv = [n for n in walk_no_nested_defs(rec) if isinstance(n, ast.Assign) and dotted(n.targets[0]) == "self._corrected_stack"]
+        if priv:
+            _sm, setter = repo.func(f"{DP}:DirectPtychography.corrected_stack@setter")
+            side = [unparse(t) for n in ast.walk(setter) if isinstance(n, ast.Assign) for t in n.targets if isinstance(t, ast.Attribute) and dotted(t.value) == "self" and t.attr != "_corrected_stack"]
+            side += [unparse(n)[:40] for n in ast.walk(setter) if isinstance(n, ast.Delete)]
+            if side:
+                check.violated("C04-R2", "reconstruct: result = Re(inverse transform) / total aperture weight of the selected mask",
+                               f"reconstruct stores `self._corrected_stack` directly while the `corrected_stack` setter also resets {side}: the derived value survives a second "
+                               f"reconstruct() on the same object — what is read back depends on the call history, not only on stack, mask and hyper-parameters", mod.line(priv[0]), definite=True)
+            fin = priv
     ok = len(fin) == 1 and unparse(fin[0].value) == "fourier_factor.real / BF_weights"
     check.decide(ok, "C04-R2", "reconstruct: result = Re(inverse transform) / total aperture weight of the selected mask", unparse(fin[0].value) if fin else "", mod.line(fin[0] if fin else rec),
                  fail_detail=f"corrected_stack = `{unparse(fin[0].value) if fin else '?'}`")
